@@ -972,6 +972,8 @@ func runC14(c *Ctx) {
 	// 1. golden anchors
 	x.golden()
 	lap("golden")
+	x.longStrings()
+	lap("long strings")
 
 	// 2. every scalar family at top level and as single child of each container format
 	var cases []c14case
@@ -1460,5 +1462,95 @@ func (x *c14run) replay(path string) {
 		}
 	default:
 		panic("replay: unknown case " + req.String())
+	}
+}
+
+
+// longStrings: strings whose length prefix takes four bytes (2 MiB and more), at top level and as the first of two
+// members of a large-format array.  Documents of this size are not pushed through the model (tens of megabytes of
+// S-expression); the serialisation and the expected text are built here, and the builder is checked against the
+// model on small instances first (a string of 3 and of 200 bytes), so that what is compared for the long ones is the
+// same formula the model confirmed for the short ones.
+func (x *c14run) longStrings() {
+	c := x.c
+	varlen := func(n int) []byte {
+		var b []byte
+		for {
+			d := byte(n & 0x7f)
+			n >>= 7
+			if n == 0 {
+				return append(b, d)
+			}
+			b = append(b, d|0x80)
+		}
+	}
+	content := func(n int) []byte {
+		b := make([]byte, n)
+		for i := range b {
+			b[i] = "abcdefghijklmnopqrstuvwxyz0123456789"[i%36]
+		}
+		return b
+	}
+	top := func(n int) ([]byte, []byte) {
+		s := content(n)
+		return append(append([]byte{0x0c}, varlen(n)...), s...), append(append([]byte(`'"`), s...), `"'`...)
+	}
+	arr := func(n int) ([]byte, []byte) {
+		// large array of two strings: count(4) size(4) 2 x (type, offset(4)) then the values
+		s, tail := content(n), []byte("tail")
+		v0 := append(varlen(n), s...)
+		v1 := append(varlen(len(tail)), tail...)
+		hdr := 4 + 4 + 2*5
+		body := append(append(leEnc(4, 2), leEnc(4, hdr+len(v0)+len(v1))...), 0x0c)
+		body = append(append(body, leEnc(4, hdr)...), 0x0c)
+		body = append(body, leEnc(4, hdr+len(v0))...)
+		body = append(append(body, v0...), v1...)
+		exp := append(append([]byte(`JSON_ARRAY('`), s...), `','tail')`...)
+		return append([]byte{0x03}, body...), exp
+	}
+	builders := []struct {
+		name string
+		f    func(int) ([]byte, []byte)
+	}{{"top-level string", top}, {"first member of a large array", arr}}
+	for _, b := range builders {
+		okSmall := true
+		for _, n := range []int{3, 200} {
+			data, exp := b.f(n)
+			m := substOutcomeJSON(c.M.Call(vh.L(vh.A("json_raw"), vh.X(data))))
+			if m.String() != vh.Ok(vh.X(exp)).String() {
+				okSmall = false
+				c.R.Notes = append(c.R.Notes, fmt.Sprintf("long strings: the %s builder disagrees with the model on %d bytes (%s); long instances skipped", b.name, n, showText(m)))
+			}
+		}
+		if !okSmall {
+			continue
+		}
+		lens := []int{1<<21 - 1, 1 << 21, 3<<20 + 17, 4 << 20, 5<<20 + 12345, 6<<20 - 1, 8 << 20}
+		if c.Thorough() {
+			lens = append(lens, 1<<22+1, 12<<20+7, 16<<20, 1<<25+3)
+		}
+		for _, n := range lens {
+			data, exp := b.f(n)
+			got := vh.Try(func() vh.Val {
+				t, err := replication.VerifPrintJSONData(data)
+				return jsonOutcome(t, err)
+			})
+			c.R.Count(fmt.Sprintf("long-string/%s/prefix%dbytes", b.name, len(varlen(n))))
+			ok := got.Nth(0).Atom == "ok"
+			var text []byte
+			if ok {
+				text, _ = got.Nth(1).Hex()
+			}
+			if !ok || !bytes.Equal(text, exp) {
+				first := 0
+				for first < len(text) && first < len(exp) && text[first] == exp[first] {
+					first++
+				}
+				c.R.Add(vh.Mismatch{Kind: "spec", What: "printJSONData(ser(document)) differs from render(document) (a string of 2 MiB or more)",
+					Case:     fmt.Sprintf("%s, %d bytes of text (length prefix x%x)", b.name, n, varlen(n)),
+					Expected: fmt.Sprintf("%d bytes", len(exp)), Impl: fmt.Sprintf("%s, %d bytes, first difference at byte %d", got.Nth(0).Atom, len(text), first), InDomain: true})
+				break
+			}
+		}
 	}
 }
